@@ -187,7 +187,14 @@ def run(ctx):
             except Exception as ex:
                 spec_fail.append((kind, "initial-walker checks run", {"norb": norb, "nelec": ne, "restricted": restricted, "error": repr(ex)[:300]}))
 
-    ctx.cov["evaluations"] = evals + len(refs) + qr_cases + init_cases
+    # orthonormalisation inside free projection, over consecutive steps: the accumulated norm factors x the stored
+    # orthonormal walker must stay the un-normalised state, and the stored overlaps its overlap (shared with C05)
+    from props import c05
+    fp_steps = 0
+    for norb, ne in ((4, (2, 1)), (4, (2, 2))) if ctx.tier == "quick" else ((4, (2, 1)), (4, (2, 2)), (3, (2, 1)), (5, (3, 2))):
+        fp_steps += c05.multistep(rng.randrange(1 << 30), norb, ne, 2, 0.02, 3 if ctx.tier == "quick" else 5, spec_fail)
+    ctx.cov["correspondence_free_projection_steps"] = fp_steps
+    ctx.cov["evaluations"] = evals + len(refs) + qr_cases + init_cases + fp_steps
     ctx.cov["distinct_nontrivial"] = len(dist) + init_cases
     ctx.cov["rule"] = ("complex full-column-rank batches for 8 trial kinds (restricted and unrestricted containers) through prop.orthonormalize_walkers and "
                        "qr_vmap(_uhf); implementation overlap(Q) x norm and energy(Q) vs the Lean model's exact overlap / energy of the original W (rhf, uhf); "
